@@ -91,6 +91,41 @@ def join(a, b):
     return frozenset(a | b)
 
 
+def nondet_debug_adts(crate):
+    """Local ADTs whose Debug output is not reproducible: manual Debug impls printing pointers, and (transitively)
+    ADTs with a field of such a type or of a hash-ordered container."""
+    bad = set()
+    for fn in crate.fn_list:
+        if fn.get('impl_trait') == 'std::fmt::Debug' and fn.get('x') is None:
+            if any(tr == 'new_pointer' for s_ in H.format_sites_in_fn(fn) for tr, _ in (s_['args'] or [])):
+                t = re.sub(r'<.*', '', fn.get('impl_self') or '')
+                bad.add(t)
+    changed = True
+    while changed:
+        changed = False
+        for path, a in crate.adts.items():
+            if path in bad:
+                continue
+            for v in a['variants']:
+                for f in v['fields']:
+                    if debug_nondeterministic(f['ty'], bad):
+                        bad.add(path)
+                        changed = True
+                        break
+                if path in bad:
+                    break
+    return bad
+
+
+def debug_nondeterministic(t, bad_adts):
+    if re.search(r'std::collections::(hash_map::|hash_set::)?Hash(Map|Set)\b|\*const |\*mut |std::ptr::NonNull|std::rc::Rc<|std::sync::Arc<', t):
+        return True
+    for a in bad_adts:
+        if re.search(r'(^|[^A-Za-z0-9_:])' + re.escape(a) + r'\b', t):
+            return True
+    return False
+
+
 class State:
     """Interprocedural facts discovered by the fixpoint."""
 
@@ -307,6 +342,8 @@ def sort_key_total(call):
     return False, 'unknown keyed sort'
 
 
+BLIND_INSERTS = {'insert', 'entry', 'extend'}
+READ_ONLY_MAP = {'get', 'contains_key', 'contains', 'len', 'is_empty', 'iter', 'keys', 'values'}
 ORDERED_GROW = {'push', 'push_back', 'push_front', 'extend', 'insert', 'push_str', 'append', 'extend_from_slice'}
 
 
@@ -325,6 +362,7 @@ def loop_body_effects(crate, fn, loop, T):
                 for b in H.pat_bindings(p):
                     inner.add(b['hid'])
     out = []
+    outer_map_uses = []
     pm = H.parents(fn)
     bind = H.binding_sites(fn)
 
@@ -368,9 +406,12 @@ def loop_body_effects(crate, fn, loop, T):
                     continue
                 if a.get('k') == 'AddrOf' and rl is None:
                     continue  # &mut of a temporary
-                if INSENSITIVE_MUT_TARGET.search(ta):
-                    continue
                 name = n.get('m') or short(H.callee_decl(n) or '?')
+                if INSENSITIVE_MUT_TARGET.search(ta):
+                    if 'Diagnostics' not in ta:
+                        blind = n.get('k') == 'MCall' and a is n['recv'] and name in BLIND_INSERTS
+                        outer_map_uses.append((pp(H.strip_refs(a), maxlen=40), name, blind, n))
+                    continue
                 # growth of a plain local collection: the local becomes hash-ordered (tracked), not a violation
                 hid = None
                 if rl is not None and name in ORDERED_GROW and n.get('k') == 'MCall' and H.strip_refs(n['recv']) is rl:
@@ -378,6 +419,18 @@ def loop_body_effects(crate, fn, loop, T):
                     if b and b['kind'] == 'let':
                         hid = rl.get('hid')
                 out.append(('mutates-outer', '%s(%s: %s)' % (name, pp(a, maxlen=40), ta[:60]), n, hid))
+    # an outer map that is written by blind inserts only is order-insensitive; mixing inserts with reads or in-place
+    # mutation of the same map inside the loop makes later iterations see earlier ones (read-modify-write): order-sensitive
+    by_target = {}
+    for tgt, name, blind, node in outer_map_uses:
+        by_target.setdefault(tgt, []).append((name, blind, node))
+    for tgt, uses in by_target.items():
+        if any(b for _, b, _ in uses) and any(not b for _, b, _ in uses):
+            nb = next(u for u in uses if not u[1])
+            out.append(('mixed-map-access', '%s: %s' % (tgt, '+'.join(sorted(set(u[0] for u in uses)))), nb[2], None))
+        elif all(not b for _, b, _ in uses) and len(uses) and any(u[0] not in READ_ONLY_MAP for u in uses):
+            # in-place mutation of existing entries only (no insert): each iteration touches the loop item or all entries alike
+            pass
     return out
 
 
@@ -462,7 +515,12 @@ def analyse_fn(crate, fn, st, exc, used_exc, emit):
         key = mkkey('%s|%s|%s' % (fshort, 'consumer', name or pk))
         ek = (fshort, 'consumer', name or pk)
         if in_wrapper_impl:
-            ob('R8.1', key, True, loc, 'inside the impl of wrapper source %s (every use of that type is itself checked as a hash-ordered source)' % short(fn['impl_self']))
+            par = H.parents(fn).get(id(p))
+            if name == 'next' and par is not None and par.get('k') == 'Try':
+                ob('R8.1', key, False, loc, 'inside wrapper iterator %s: `?` on the next() of one inner hash-ordered iterator ends the whole iteration when that '
+                   'inner map is exhausted, so which elements are yielded depends on hash order' % short(fn['impl_self']))
+            else:
+                ob('R8.1', key, True, loc, 'inside the impl of wrapper source %s (every use of that type is itself checked as a hash-ordered source)' % short(fn['impl_self']))
             continue
         if pk == 'Struct':
             done = False
@@ -605,6 +663,37 @@ def run(ck):
                     ck.ob('R8.4', '%s|%s' % k, False, loc, 'ambient nondeterminism source `%s` called in %s' % (d, m['path']))
     ck.extra['mir_calls_scanned'] = n_calls
     ck.floor('R8.4', n_calls, 9000, 'MIR call sites scanned')
+
+    # R8.6 Debug formatting of address- or hash-order-dependent types into output/diagnostic text
+    ck.rule('R8.6', 'no {:?}/{:p} formatting of a type whose Debug output depends on addresses or hash order, outside logging, panics and Debug impls')
+    n_dbg = 0
+    for crate in (F.lib, F.cli, F.bin):
+        nondet = nondet_debug_adts(crate)
+        ck.extra.setdefault('nondeterministic_debug_types', []).extend(sorted(short(x) for x in nondet))
+        for fn in crate.fn_list:
+            if fn.get('x') in ('Debug', 'Clone', 'Deserialize', 'Serialize', 'Error', 'Parser', 'Args', 'Subcommand'):
+                continue
+            if fn.get('impl_trait') == 'std::fmt::Debug' or fn['path'].startswith('tir::dump::'):
+                continue
+            ordn = {}
+            for site in H.format_sites_in_fn(fn):
+                n = site['node']
+                mac = (n.get('x') or '')
+                if mac.startswith('log::') or mac in ('panic', 'unreachable', 'assert', 'assert_eq', 'assert_ne', 'debug_assert', 'todo', 'unimplemented', 'trace', 'debug'):
+                    continue
+                for tr, e in site['args'] or []:
+                    if tr not in ('new_debug', 'new_pointer') or e is None:
+                        continue
+                    n_dbg += 1
+                    t = crate.ty(e) or '?'
+                    bad = tr == 'new_pointer' or debug_nondeterministic(t, nondet)
+                    base = '%s|debug-format|%s' % (short(fn['path']), re.sub(r"^(&(mut )?('[a-z_]+ )?)+", '', t)[:60])
+                    i = ordn.get(base, 0)
+                    ordn[base] = i + 1
+                    ck.ob('R8.6', base + ('#%d' % (i + 1) if i else ''), not bad, crate.loc(n),
+                          'Debug output of `%s` is address- and hash-order-free' % t[:80] if not bad else
+                          '`{:?}` of `%s` prints heap addresses or hash-ordered containers: text differs between runs' % t[:100], fn=fn['path'])
+    ck.floor('R8.6', n_dbg, 6, 'Debug-format sites outside logging/panics/Debug impls')
 
     # R8.5 statics
     n_static = 0
